@@ -41,7 +41,8 @@ CLAIMS = {
     'C07': ('Packet::decode returns for every datagram of length 0..=48 with all 256 prefix bytes and announced sequence lengths 0..15, with and without key (Kani, complete '
             'for that length range; AEAD stubbed with its precondition checked); a datagram the AEAD did not accept leaves the replay window untouched; '
             'ReplayProtection has no precondition on the sequence (Verus).',
-            'Server (U19, Verus): a datagram NetcodeServer::process_packet_internal refuses refreshes no session\'s time-out and changes no session (C10 frame clauses). Client/token harnesses are listed in the evidence when unit U12 is present.'),
+            'Server (U19, Verus): a datagram NetcodeServer::process_packet_internal refuses refreshes no session\'s time-out and changes no session (C10 frame clauses). '
+            'Tokens (U20, Verus): ConnectToken::read, PrivateConnectToken::read/decode and read_server_addresses have no precondition on the bytes: they return for every input (all index, slice and arithmetic obligations discharged). Client harnesses are listed in the evidence when unit U12 is present.'),
     'C08': ('The pending-ack list never contains a sequence that was not added (view(final) subset of view(old)+{q}), stays sorted/disjoint/non-adjacent for any arrival '
             'order and is trimmed exactly up to the horizon by acked_largest (Verus, unbounded).',
             'Every decodable non-Ack packet handed to RenetClient::process_packet has its sequence recorded by add_pending_ack (U15). The Ack arm of RenetClient::process_packet (U15): exactly the records whose sequence lies inside a received half-open range are removed (none outside), acknowledgements only release or mark messages of reliable send channels (nothing is added or altered), '
@@ -65,7 +66,10 @@ CLAIMS = {
             'the format can carry (all five kinds, any number of messages/ranges, all varint widths); the real Packet::from_bytes is proved to compute parse exactly (accepts, value, bytes consumed, '
             'and refuses only what parse refuses), everything it returns lies in the round-trip domain, and the real Packet::to_bytes is proved verbatim to write exactly wire(p) for all five kinds (including the delta-coded Ack arm over iter().rev()).',
             'Assumed: octets cursor/varint model (3 axioms: length, decode(encode v ++ t) = v, decoded value < 2^62). Bounded stand-in (not counted as proved): netcode payload round trip for lengths 1..=16. '
-            'Not decided: connect tokens (PrivateConnectToken/ConnectToken round trips).'),
+            'Connect tokens (Verus, U20, unbounded, real code of token.rs/serialize.rs): ConnectToken::write / PrivateConnectToken::write / write_server_addresses write exactly the wire form (spec function) of their argument; '
+            'the readers return t and consume exactly the written bytes on every input of the form wire(t) ++ tail with t a token the library builds (1..=32 IPv4/IPv6 addresses in the first slots), and everything they return is such a token '
+            '(so its re-serialization reads back as the same value); PrivateConnectToken::encode/decode are inverse under the idealised AEAD; generate builds only such tokens. '
+            'Assumed for tokens: io::Read/io::Write stream model, little-endian meaning of to/from_le_bytes, std::net constructors/accessors, the Cursor glue of encode/decode, the filter/count chain (D19).'),
     'C17': ('Usage contract of the AEAD in Packet::encode/decode: sealed exactly once with (sequence, key), AAD binds version, protocol id and prefix byte, nonce is the '
             'decoded sequence, ciphertext is everything after the sequence bytes (Kani, complete).',
             'Server (Verus, U19): NetcodeServer::new starts global_sequence at 2^63 and the invariant global_sequence >= 2^63 is preserved; every handshake reply (challenge, denied) is sealed with a nonce of the upper half, '
@@ -82,7 +86,8 @@ CLAIMS.update({
             'server key/protocol id/expiry it names, the clock is before the expiry, the address is not connected, and the token was not presented from another address before (token table: one entry per MAC, '
             'first address wins); ClientConnected is reported only for a half-open session at that address whose response echoes a challenge this server sealed for the same client id and user data, which are the ones reported.',
             'Assumed: AEAD idealisation (token_authentic / challenge_authentic / sealed_under are uninterpreted: opening succeeds only for what the key sealed); one-line iterator chains replaced by assumed functions '
-            '(host list test, free-slot search, find_client_*); history assumptions (counters not wrapped). Not decided: the wrong-host clause beyond the assumed host-list function; the version-info comparison (array != has no spec in this Verus); update/update_client time-outs.'),
+            '(host list test, free-slot search, find_client_*); history assumptions (counters not wrapped). Token side (U20, verbatim): the associated data sealed into and required from a private token is version || protocol id || expiry (get_additional_data, PrivateConnectToken::encode/decode), a private token comes out of decode only if the AEAD opened the data under the given key, nonce and that associated data, and ConnectToken::generate seals a private part with the same client id, keys, addresses and the given user data. '
+            'Not decided: the wrong-host clause beyond the assumed host-list function; update/update_client time-outs.'),
     'C10': ('Server invariant table_unique (connected clients have pairwise distinct ids and pairwise distinct addresses) is preserved by process_packet_internal and handle_connection_request (Verus, U19, verbatim); '
             'ClientConnected adds exactly one new session in a free slot with an id and address not connected before; ClientDisconnected removes exactly the named session; any other outcome leaves the set of sessions and their keys as they were; '
             'a payload is attributed to the session of the sending address; a request never touches the table of connected clients.',
